@@ -38,6 +38,7 @@ def run(repo, chk):
     rule_b(repo, chk, p, ex)
     rule_c_d(repo, chk)
     rule_e(repo, chk, p)
+    rule_f(repo, chk)
 
 
 def _searches(f):
@@ -453,3 +454,24 @@ def rule_e(repo, chk, p):
         bad = bad or Q.reachable_without(g, d, avoid_node=lambda n: n in framing)
     chk.ob('e', f.ref, 'the headers are declared complete only after the body framing was set up', bad is None and bool(framing), loc(f, done[0].ast),
            path=pat.path_lines(bad) if bad else None, discr='framing-before-complete')
+
+
+def rule_f(repo, chk):
+    """The HTTP front end keeps one parser per socket object: whoever turns a byte stream into read events must use one key per stream."""
+    chk.rule('C13.f', 'a component that forwards a stream to the HTTP front end as read(sock, data) events passes the same socket object for every read of '
+                      'that stream (never a socket object created in the forwarding handler itself)')
+    n = 0
+    for f in repo.all_functions():
+        if not f.module.relpath.startswith('circuits/web/') or f.handler is None or 'read' not in f.handler.names:
+            continue
+        for c, _r, e in pat.fire_calls(f.node):
+            if pat.event_ctor_name(e) == 'read' and len(e.args) == 2:
+                n += 1
+                chk.touch(f)
+                key = e.args[0]
+                fresh = isinstance(key, ast.Call) and (call_name(key) or '')[:1].isupper()
+                if isinstance(key, ast.Name):
+                    fresh = any(isinstance(v, ast.Call) and (call_name(v) or '')[:1].isupper() for v in pat.deref(f, key))
+                chk.ob('f', f.ref, 'the socket key of the forwarded read is not an object made for this one read', not fresh, loc(f, c), detail=src(c)[:80],
+                       discr='one-key-per-stream')
+    need(n >= 1, 'C13.f: no read-forwarding handler found (StdinServer.read was confirmed by hand)')
